@@ -119,6 +119,9 @@ def prepass(text, log):
     text, k = re.subn(r"crate::darling::export::ToString::to_string\(\s*&__attr\.path\(\)\.clone\(\)\.into_token_stream\(\)\s*\)", "crate::attr_path_string(__attr)", text)
     if k:
         log.append(f"R11b:to_string(&attr.path().clone().into_token_stream()) -> attr_path_string(attr) x{k}")
+    text, k = re.subn(r'&\s*format!\(\s*"((?:struct|enum) with )\{\}"\s*,\s*(\w+)\s*\)', r'&crate::fmt_with("\1", &\2)', text)
+    if k:
+        log.append(f"R11:format!(\"struct with {{}}\", set) -> fmt_with(prefix, &set) x{k}")
     text, k = re.subn(r'&\s*format!\(\s*"\{\}\[\{\}\]"\s*,\s*("[^"]*")\s*,\s*(\w+)\s*\)', r"&crate::fmt_idx(\1, \2)", text)
     if k:
         log.append(f"R11:format!(\"{{}}[{{}}]\", name, idx) -> fmt_idx(name, idx) x{k}")
@@ -179,6 +182,8 @@ def declaration(d):
         return enum_declaration(d)
     if d["kind"] == "elem":
         return elem_declaration(d)
+    if d["kind"] == "supports":
+        return supports_declaration(d)
     n = d["name"]
     cattrs = []
     if d["rename_all"]:
@@ -557,6 +562,12 @@ FOOTER = "\n} // verus!\nfn main() {}\n"
 
 def make_unit(unit, d, mode="full", unit_span=False):
     from . import driver as D
+    if d["kind"] == "supports":
+        foot = ("\n} // verus!\n"
+                "impl fmt::Display for Shape { fn fmt(&self, f: &mut fmt::Formatter<'_>) -> fmt::Result { Shape::fmt(self, f) } }\n"
+                "impl fmt::Display for ShapeSet { fn fmt(&self, f: &mut fmt::Formatter<'_>) -> fmt::Result { ShapeSet::fmt(self, f) } }\n"
+                "fn main() {}\n")
+        return D.expand_includes(SUPPORTS_HEADER.format(unit=unit) + supports_template(d, unit) + foot)
     hdr = HEADER.format(unit=unit)
     if unit_span:
         hdr = hdr.replace("//@include prelude/base.vrs", "//@include prelude/base_unitspan.vrs")
@@ -1053,3 +1064,100 @@ def quick_elems():
 
 
 CORPORA["elems"] = lambda tier, seed: quick_elems()
+
+
+# ================================================================================================ supports(..) validators (C18)
+SHAPE_WORDS = ["newtype", "named", "tuple", "unit"]
+SHAPE_VARIANT = {"newtype": "Newtype", "named": "Named", "tuple": "Tuple", "unit": "Unit"}
+
+
+def supports_desc(name, struct_words=(), enum_words=(), any_=False):
+    return {"kind": "supports", "name": name, "trait": "FromDeriveInput", "struct_words": list(struct_words), "enum_words": list(enum_words), "any": any_}
+
+
+def supports_declaration(d):
+    ws = (["any"] if d["any"] else []) + [f"struct_{w}" for w in d["struct_words"]] + [f"enum_{w}" for w in d["enum_words"]]
+    return f"#[darling(attributes(x), supports({', '.join(ws)}))] struct {d['name']} {{ ident: syn::Ident }}"
+
+
+SUPPORTS_HEADER = """// L3 unit {unit}: the `__validate_body` emitted for a receiver declaring supports(..), verified for all bodies against the
+// verdict table of C18 (prelude/shape_l3.vrs). ShapeSet / Accumulator / Error are seen through their proved contracts.
+use vstd::prelude::*;
+use std::fmt;
+verus! {{
+//@include prelude/base.vrs
+//@include prelude/ext_axioms.vrs
+//@include prelude/error_types.vrs
+//@include prelude/std_assumed.vrs
+//@include prelude/broadcast_all.vrs
+//@include prelude/error_api_specs.vrs
+//@include prelude/error_api.vrs stubs
+//@include prelude/error_api_shape.vrs stubs
+//@include prelude/acc_api.vrs stubs
+//@include prelude/shape_syn.vrs
+//@include prelude/shape_api.vrs stubs
+//@include prelude/shape_l3.vrs
+"""
+
+
+def supports_template(d, gen_id):
+    n = d["name"]
+    canon = ["named", "tuple", "newtype", "unit"]     # order in which DataShape lists its words (list equality is only a proof hint)
+    sws = [x for x in canon if x in d["struct_words"]]
+    ews = [x for x in canon if x in d["enum_words"]]
+    sw = "seq![" + ", ".join(f"Shape::{SHAPE_VARIANT[w]}" for w in sws) + "]"
+    ew = "seq![" + ", ".join(f"Shape::{SHAPE_VARIANT[w]}" for w in ews) + "]"
+    if not d["struct_words"]:
+        sw = "Seq::<Shape>::empty()"
+    if not d["enum_words"]:
+        ew = "Seq::<Shape>::empty()"
+    o = []
+    w = o.append
+    w(f"// ===== receiver {n}: {json.dumps(d)}")
+    w("impl Recv {")
+    w(f"    //@fn @gen:{gen_id}.rs :: impl crate::darling::FromDeriveInput for {n} :: fn from_derive_input :: fn __validate_body")
+    w("    #[verifier::loop_isolation(false)]")
+    w("    pub fn __validate_body(__body: &crate::darling::export::syn::Data) -> (r: crate::darling::Result<()>)")
+    if d["any"]:
+        w("        ensures r == Ok::<(), Error>(()),")
+        w("    //@body")
+        w("    //@end")
+    else:
+        w(f"        ensures match verdict({sw}, {ew}, *__body) {{ Ok(_) => r is Ok, Err(e) => r == Err::<(), Error>(e) }},")
+        w("    //@body")
+        w(f"    //@ replace R16 @0: ShapeSet::new(vec![$$]) ==> ShapeSet::new({{ let __v: Vec<Shape> = vec![$1]; proof {{ axiom_vec_yield(__v); assert(__v@ =~= {sw}); }} __v }})")
+        w(f"    //@ replace R16 @1: ShapeSet::new(vec![$$]) ==> ShapeSet::new({{ let __v: Vec<Shape> = vec![$1]; proof {{ axiom_vec_yield(__v); assert(__v@ =~= {ew}); }} __v }})")
+        w(f"    //@ replace R10: match *__body {{ ==> proof {{ lemma_set_of(struct_check, {sw}); lemma_set_of(enum_check, {ew}); lemma_empty_iff({sw}); lemma_empty_iff({ew}); }} match *__body {{")
+        w("    //@ replace R6n: for variant in &data.variants ==> for variant in __it: data.variants.as_slice()")
+        w("    //@ loop 0 spec: invariant variant_errors.armed(), variant_errors.errs() =~= expected_errors(&enum_check, data.variants@.take(__it.index@ as int)),")
+        w("    //@ loop 0 head: proof { assert(data.variants@.take(__it.index@ + 1).drop_last() == data.variants@.take(__it.index@ as int)); }")
+        w("    //@ loop 0 after: proof { assert(data.variants@.take(data.variants@.len() as int) == data.variants@); }")
+        w("    //@end")
+    w("}")
+    return "\n".join(o)
+
+
+def quick_supports():
+    return [
+        supports_desc("S0", ["named"], ["unit"]),
+        supports_desc("S1", ["newtype", "tuple"], []),
+        supports_desc("S2", [], ["newtype", "unit", "named"]),
+        supports_desc("S3", any_=True),
+        supports_desc("S4", ["unit", "named", "tuple", "newtype"], ["tuple"]),
+        supports_desc("S5", ["newtype"], ["newtype"]),
+    ]
+
+
+def all_supports():
+    out = []
+    k = 0
+    for smask in range(16):
+        for emask in range(16):
+            if smask == 0 and emask == 0:
+                continue
+            out.append(supports_desc(f"SA{k}", [w for i, w in enumerate(SHAPE_WORDS) if smask >> i & 1], [w for i, w in enumerate(SHAPE_WORDS) if emask >> i & 1]))
+            k += 1
+    return out
+
+
+CORPORA["supports"] = lambda tier, seed: quick_supports() + ([] if tier == "quick" else all_supports())
